@@ -83,7 +83,7 @@ def load_known_findings(prop):
             continue
         if m.group(1) != prop:
             continue
-        out.append(dict(id=m.group(2), patterns=m.group(3).split(","), text=m.group(4)))
+        out.append(dict(id=m.group(2), patterns=m.group(3).split(";"), text=m.group(4)))
     return out
 
 
